@@ -99,31 +99,35 @@ def substep_chain(case, substep, prob, steps):
         Treal = np.array(prob_s.solve_step_substep(np.array(T, copy=True), times[n + 1], dt))
         manual = steps[(n + 1) * substep - 1]["T"]
         scale = float(np.max(np.abs(manual))) + 1.0
-        if np.max(np.abs(Treal - manual)) > 1e-7 * scale:
-            pure_flux = all(k in ("ins", "flux") for k in (case.inner, case.outer)) and case.mat_T is None
-            msg = ("step %d with substep=%d: solve_step_substep differs from the chain of sub-steps at times t_n + i*dt/substep by %.3e"
-                   % (n, substep, float(np.max(np.abs(Treal - manual)))))
-            if pure_flux:
-                dE = float(np.sum(rr[I, None, None] * (Treal.reshape(prob.fdim)[I, J, Kk] - np.array(T).reshape(prob.fdim)[I, J, Kk])))
-                a, k = float(case.mat_a[0]), float(case.mat_k[0])
-                lo = hi = 0.0
+        differs = np.max(np.abs(Treal - manual)) > 1e-7 * scale
+        msg = ("step %d with substep=%d: solve_step_substep differs from the chain of sub-steps at times t_n + i*dt/substep by %.3e"
+               % (n, substep, float(np.max(np.abs(Treal - manual))))) if differs else "step %d with substep=%d" % (n, substep)
+        pure_flux = all(k in ("ins", "flux") for k in (case.inner, case.outer)) and case.mat_T is None
+        found = False
+        if pure_flux:
+            # exact discrete balance (SrProps.C02.step_balance summed over the sub-steps): the stored heat of the full
+            # step is the sum over the sub-steps of dt_i x face flux, the flux data taken AT THE SUB-STEP TIMES
+            dE = float(np.sum(rr[I, None, None] * (Treal.reshape(prob.fdim)[I, J, Kk] - np.array(T).reshape(prob.fdim)[I, J, Kk])))
+            a, k = float(case.mat_a[0]), float(case.mat_k[0])
+            want, mag = 0.0, 0.0
+            dti = dt / substep
+            for isub in range(1, substep + 1):
+                ti = times[n] + dti * isub
                 for which, kind in (("inner", case.inner), ("outer", case.outer)):
                     if kind != "flux":
                         continue
-                    q0 = np.array(tc.wall_values(case, tube, mat, fluid, which, times[n])[1])
-                    q1 = np.array(tc.wall_values(case, tube, mat, fluid, which, times[n + 1])[1])
+                    qi = np.array(tc.wall_values(case, tube, mat, fluid, which, ti)[1])
                     rh = 0.5 * (rr[0] + rr[1]) if which == "inner" else 0.5 * (rr[case.nr] + rr[case.nr + 1])
-                    coef = dt * rh * a / k / prob.dr
-                    lo += coef * float(np.sum(np.minimum(q0, q1)))
-                    hi += coef * float(np.sum(np.maximum(q0, q1)))
-                slack = 1e-6 * (abs(lo) + abs(hi) + scale)
-                if dE < lo - slack or dE > hi + slack:
-                    bad.append(("substep-window", msg + "; stored heat changed by %.9g but the flux data during [t_n, t_n+1] can deliver only [%.9g, %.9g]"
-                                % (dE, lo, hi)))
-                else:
-                    bad.append(("substep-chain-only", msg))
-            else:
-                bad.append(("substep-chain-only", msg))
+                    want += dti * rh * a / k / prob.dr * float(np.sum(qi))
+                    mag += dti * abs(rh) * a / k / prob.dr * float(np.sum(np.abs(qi)))
+            # solver tolerance on the temperatures (auto_atol) and rounding of the sums
+            tol = 1e-6 * (mag + 1e-3 * scale * float(np.sum(np.abs(rr[I]))))
+            if abs(dE - want) > tol:
+                bad.append(("substep-balance", msg + ": stored heat of the step changed by %.9g but the flux data at the sub-step "
+                            "times t_n + i*dt/substep supply %.9g" % (dE, want)))
+                found = True
+        if differs and not found:
+            bad.append(("substep-chain-only", msg))
         T = Treal
     return bad
 
@@ -185,7 +189,7 @@ def run(ctx):
             else:
                 viol.append((c, what, detail))
     ctx.obligation("correspondence: real solve_step_substep == chain of sub-steps at the documented sub-step times",
-                   not chain_only and not [v for v in viol if v[1] == "substep-window"],
+                   not chain_only and not [v for v in viol if v[1] in ("substep-window", "substep-balance")],
                    "%d differ; first: %s" % (len(chain_only), chain_only[0][1] if chain_only else ""))
     mism = list(mism) + [(c, [d]) for c, d in chain_only]
     # ---- known corner F17: thick coarse tube ----
